@@ -90,6 +90,10 @@ class QueryPlanner:
         self.projects = list(_projects)
         self.databases = list(self.integrations.keys()) + self.projects
 
+        # the names of the databases are kept in lower case: the default namespace has to be comparable with them
+        if self.default_namespace is not None and self.default_namespace.lower() in self.databases:
+            self.default_namespace = self.default_namespace.lower()
+
         self.statement = None
 
         self.cte_results = {}
